@@ -21,9 +21,11 @@ META = dict(
               'cyclic; both missing-value modes; fixed and learned_interior keypoints; 3-4 buckets with default value; all real '
               'kernels / logits / inputs; categorical indices enumerated',
         thorough='adds 5-6 keypoints, units 3'),
-    outside=['IEEE-754 rounding (softmax underflow to exactly 0 is outside the contract)', 'keypoint counts beyond the bounds'],
+    outside=['IEEE-754 rounding other than the modelled softmax underflow (one share exactly 0, division by the zero length '
+             'executed as IEEE: x/0 = +-inf, 0/0 = NaN)', 'keypoint counts beyond the bounds'],
     assumptions=['TF op semantics per vf/interp.py (validated per case)', 'z3 is sound',
-                 'Softmax contract: outputs positive, sum to 1, ordered like the logits'],
+                 'Softmax contract: outputs positive, sum to 1, ordered like the logits; in the underflow cases one chosen share is '
+                 'exactly 0 (what float32 returns for a logit ~104 below the largest)'],
 )
 
 
@@ -193,6 +195,76 @@ def case_pwl(**p):
   return case
 
 
+def case_pwl_underflow(**p):
+  """Learned interior keypoints one of whose softmax shares has underflowed to exactly 0 (float32 does that once a logit
+  is ~104 below the largest): the segment has length 0, the function has a jump there, and the division by the segment
+  length is executed the IEEE way (x/0 = +-inf, 0/0 = NaN).  Everywhere else the arithmetic stays exact."""
+  import tensorflow as tf
+  from tensorflow_lattice.python import pwl_calibration_layer as PL, pwl_calibration_lib as pl
+  case = Case(PROP, p['name'], {k: v for k, v in p.items() if k != 'name'})
+  case.encoded(PL.PWLCalibration.call, PL.PWLCalibration.keypoints_inputs, PL.PWLCalibration.keypoints_outputs,
+               pl.compute_interpolation_weights)
+  p = dict(p, kptype='learned_interior', units=1)
+  layer = _layer(p)
+  nk, zi = p['nk'], p['zero']
+  tr = Traced(lambda a: (layer(a), layer.keypoints_inputs(), layer.keypoints_outputs()), [tf.TensorSpec([1, 1], tf.float32)],
+              name='PWLCalibration.call')
+  done, mism = tr.validate(np.random.default_rng(0), n=2)
+  replay = dict(fn='pwl_underflow', params=p)
+  tmo = p.get('timeout', 60)
+  state = dict(leaves=0)
+
+  def build(extra, leaf):
+    c = sym.new_ctx()
+    c.memo['ieee_div0'] = True
+    c.memo['softmax_zero'] = (zi,)
+    c.case_assumptions = list(extra)
+    K = sym.symbolic('k', (nk, 1))
+    x = sym.symbolic('x', (1, 1))
+    logits = sym.symbolic('lg', (1, nk - 1))
+    wit = dict(x=x, k=K, lg=logits)
+    tag = '[leaf=%s]' % (leaf or 'root')
+    state['leaves'] += 1
+    try:
+      out, kin, kout = tr.sym_run(x, var_values={layer.kernel.ref(): K, layer.interpolation_logits.ref(): logits})
+    except sym.Undefined as e:
+      wit['softmax'] = _softmax_vars(logits)
+      case.solve('output-is-a-number-with-collapsed-segment' + tag, z3.BoolVal(True), witness=wit, timeout=tmo,
+                 sig=dict(query='underflow-nan', why=str(e)[:40]), replay=replay)
+      return
+    wit['softmax'] = _softmax_vars(logits)
+    case.meta.update(validation_points=done, validation_mismatch=mism, ops=tr.ops_seen, stubs=sym.ctx().stubs)
+    xu, o = x[0, 0], out[0, 0]
+    kps = [kin[i, 0] for i in range(nk)]
+    outs = [kout[i, 0] for i in range(nk)]
+    bad = [sym.NE(kps[0], Fraction(_kps(nk, p['spacing'])[0])), sym.NE(kps[-1], Fraction(_kps(nk, p['spacing'])[-1])),
+           sym.NE(kps[zi], kps[zi + 1])]
+    for i in range(nk - 1):
+      bad.append(sym.b(sym.s_cmp('gt', kps[i], kps[i + 1])))
+    case.solve('learned-keypoints-ordered-between-fixed-ends' + tag, core.any_of(bad), witness=wit, timeout=tmo,
+               sig=dict(query='kp_learned'), replay=replay)
+    # reference by pieces; the collapsed segment is a jump: exactly at the jump either side's value is accepted
+    pieces = [(sym.b(sym.s_cmp('lt', xu, kps[0])), [outs[0]])]
+    for i in range(nk - 1):
+      if i == zi:
+        pieces.append((sym.EQ(xu, kps[i]), [outs[i], outs[i + 1]]))
+        continue
+      t = sym.s_div(sym.s_sub(xu, kps[i]), sym.s_sub(kps[i + 1], kps[i]))
+      val = sym.s_add(outs[i], sym.s_mul(t, sym.s_sub(outs[i + 1], outs[i])))
+      lo = sym.s_cmp('gt' if i == zi + 1 else 'ge', xu, kps[i])
+      hi = sym.s_cmp('lt' if i == zi - 1 else 'le', xu, kps[i + 1])
+      pieces.append((z3.And(sym.b(lo), sym.b(hi)), [val]))
+    pieces.append((sym.b(sym.s_cmp('gt', xu, kps[-1])), [outs[-1]]))
+    for ci, (cond, vals) in enumerate(pieces):
+      case.solve('output-is-pwl-interpolation-around-collapsed-segment%s[piece=%d]' % (tag, ci),
+                 z3.And([sym.NE(o, v) for v in vals]), assumptions=[cond], witness=wit, timeout=tmo,
+                 sig=dict(query='underflow-identity'), replay=replay, required=p.get('required', True))
+    if state['leaves'] == 1 or leaf:
+      case.solve('twin:leaf-reachable' + tag, z3.BoolVal(True), expect='sat', kind='twin', timeout=30)
+  core.split_run(build)
+  return case
+
+
 def case_pwl_monotone(**p):
   """two input points: monotone keypoint outputs => monotone function (asked on the real code)"""
   import tensorflow as tf
@@ -265,6 +337,52 @@ def case_categorical(**p):
   return case
 
 
+def _replay_underflow(r, p, w):
+  """Real layer, logits = log(softmax share) with the underflowed share 200 below the smallest other logit (so float32
+  softmax really returns 0 there); an input the model puts on a keypoint is put on the float keypoint."""
+  import tensorflow as tf
+  layer = _layer(p)
+  nk, zi = p['nk'], p['zero']
+  layer(tf.zeros([1, 1]))
+  K = core.witness_np(w['k'])
+  layer.kernel.assign(K.astype(np.float32))
+  sm = core.witness_np(w['softmax']).astype(np.float64)
+  lg = np.where(sm > 0, np.log(np.where(sm > 0, sm, 1.0)), 0.0)
+  lg[0, zi] = float(np.min(lg[0, [i for i in range(nk - 1) if i != zi]])) - 200.0
+  layer.interpolation_logits.assign(lg.astype(np.float32).reshape(layer.interpolation_logits.shape))
+  kin = layer.keypoints_inputs().numpy().astype(np.float64)[:, 0]
+  kout = layer.keypoints_outputs().numpy().astype(np.float64)[:, 0]
+  x = float(core.witness_np(w['x'])[0, 0])
+  scale = max(1.0, float(np.max(np.abs(K))), float(np.max(np.abs(kout))))
+  j = int(np.argmin(np.abs(kin - x)))
+  if abs(kin[j] - x) <= 1e-5 * max(1.0, abs(x)):
+    x = float(kin[j])
+  out = float(np.asarray(layer(tf.constant([[x]], tf.float32)))[0, 0])
+  det = dict(x=x, out=out, kin=kin.tolist(), kout=kout.tolist(), logits=lg.tolist(), kernel=K.tolist())
+  if kin[zi] != kin[zi + 1]:
+    return dict(reproduced=False, detail=dict(det, note='softmax share did not underflow on the real code'))
+  if out != out:
+    return dict(reproduced=True, detail=dict(det, what='NaN output for finite kernel, logits and input'))
+  q = r['query']
+  if q.startswith('learned-keypoints'):
+    ok = abs(kin[0] - _kps(nk, p['spacing'])[0]) < 1e-5 and abs(kin[-1] - _kps(nk, p['spacing'])[-1]) < 1e-4 and np.all(np.diff(kin) >= -1e-6)
+    return dict(reproduced=not ok, detail=det)
+  if x == kin[zi]:
+    refs = [kout[zi], kout[zi + 1]]
+  elif x < kin[0]:
+    refs = [kout[0]]
+  elif x > kin[-1]:
+    refs = [kout[-1]]
+  else:
+    refs = []
+    for i in range(nk - 1):
+      if i != zi and kin[i] <= x <= kin[i + 1] and kin[i + 1] > kin[i]:
+        t = (x - kin[i]) / (kin[i + 1] - kin[i])
+        refs.append(kout[i] + t * (kout[i + 1] - kout[i]))
+  bad = bool(refs) and all(abs(out - v) > 1e-4 * scale for v in refs)
+  return dict(reproduced=bad, detail=dict(det, reference=refs))
+
+
 def replay(r):
   import tensorflow as tf
   rp = r['replay']
@@ -288,6 +406,8 @@ def replay(r):
       if abs(float(out[0, u]) - float(K[row, u])) > 1e-5 * max(1.0, abs(float(K[row, u]))):
         bad = True
     return dict(reproduced=bad, detail=dict(out=out.tolist(), kernel=K.tolist()))
+  if rp['fn'] == 'pwl_underflow':
+    return _replay_underflow(r, p, w)
   layer = _layer(p)
   x = core.witness_np(w['x'])
   inp = [tf.constant(x, tf.float32), tf.constant(core.witness_np(w['f']), tf.float32)] if 'f' in w else tf.constant(x, tf.float32)
@@ -365,6 +485,10 @@ def cases(tier, seed):
   add('case_pwl_monotone', nk=3, spacing='a', units=2)
   add('case_pwl_monotone', nk=4, spacing='u', units=1)
   add('case_pwl_monotone', nk=3, spacing='a', units=1, kptype='learned_interior', required=False, timeout=120)
+  # floating point: a softmax share that underflowed to exactly 0 collapses a segment (jump)
+  for nk_, zeros in ((3, (0, 1)), (4, (0, 1, 2))):
+    for z_ in zeros:
+      add('case_pwl_underflow', nk=nk_, spacing='a', zero=z_, required=(nk_ == 3), timeout=60 if nk_ == 3 else 120)
   add('case_categorical', buckets=3, units=1, default=-1)
   add('case_categorical', buckets=3, units=2, default=0, per_unit_input=True)
   add('case_categorical', buckets=4, units=1, default=2)
